@@ -16,7 +16,7 @@ ASSUMPTIONS = [
     "tags and HDR_LENGTH regenerated from data_dump.py on every run; control flow tied to the real DATADumpFile on io.BytesIO by differential execution (all versions/modulations/NOPE, skip/count, indices, truncation offsets, corrupted files)",
 ]
 MANIFEST = {
-    "text": "Lean 4 theorems parse_all_stored, parse_msg_idx, skip_count_slice (incl. the documented range error), truncated_prefix / truncated_parse_msg / truncated_skip_count (for EVERY cut offset: exactly the messages completely written before the cut, no exception; k characterised by the file lengths of the first k and k+1 messages), by induction over the record list using C01's round trips; termination of the parse_all loop proved; model tied to the real DATADumpFile on io.BytesIO (seeded message lists of every class/version/modulation/NOPE, skip/count/index combinations, truncation offsets around every record boundary - thorough: every offset -, corrupted files); independent oracle on the real code",
+    "text": "Lean 4 theorems parse_all_stored, parse_msg_idx, skip_count_slice (incl. the documented range error), truncated_prefix / truncated_parse_msg / truncated_skip_count (for EVERY cut offset: exactly the messages completely written before the cut, no exception; k characterised by the file lengths of the first k and k+1 messages), by induction over the record list using C01's round trips; termination of the parse_all loop proved; model tied to the real DATADumpFile on io.BytesIO (seeded message lists of every class/version/modulation/NOPE, skip/count/index combinations, truncation offsets around every record boundary - thorough: every offset of 80 files -, corrupted files); independent oracle on the real code",
     "note": "trusted: Lean kernel (+propext, Classical.choice, Quot.sound), gen/trxd_consts.py, harness/py/trxd_harness.py, lib/trxd.py; file I/O is modelled (byte list with cursor), not the OS; on a cut file a skip beyond the complete messages yields False or [] (both: no message, no exception) - stated exactly so in truncated_skip_count",
     "technique": "Lean 4 proof by induction over records over a hand model (well-founded loop); differential correspondence; oracle with independently computed record boundaries",
     "design_ref": "DESIGN.md section 5 C15",
@@ -69,7 +69,7 @@ def files(run):
         return run.c15_files
     mult = 3 if drift(run) else 1
     lists = [[]]
-    for _ in range(run.scale(150, 1000) * mult):
+    for _ in range(run.scale(150, 600) * mult):
         lists.append(rand_list(run.rng, run.rng.choice([1, 2, 3, 4, 5, 6, 8])))
     # one list per class of message on its own
     for ver in (0, 1):
@@ -98,8 +98,8 @@ def files(run):
     return run.c15_files
 
 
-def cut_offsets(run, data, bounds):
-    if run.thorough and len(data) <= 2600:
+def cut_offsets(run, data, bounds, every=False):
+    if every:
         return list(range(len(data) + 1))
     s = set([0, len(data)])
     for b in bounds:
@@ -120,11 +120,14 @@ def read_requests(run):
         return run.c15_reads
     fl, _, _ = files(run)
     out = []
+    n_every = 0
     for ms, data, lens, _ in fl:
         if data is None:
             continue
         enc = T.enc_octets(data)
         n = len(ms)
+        every = run.thorough and n_every < 40 and 0 < len(data) <= 2600
+        n_every += every
         for skip in [None, 0, 1, n - 1, n, n + 1, n + 3]:
             if skip is not None and skip < 0:
                 continue
@@ -135,7 +138,7 @@ def read_requests(run):
                     out.append(("dump.parseall %s %s %s" % (T.s(skip), T.s(count), enc), ("all", ms, n, skip, count, None)))
         for idx in range(n + 2):
             out.append(("dump.parsemsg %d %s" % (idx, enc), ("msg", ms, n, None, None, idx)))
-        for c in cut_offsets(run, data, lens):
+        for c in cut_offsets(run, data, lens, every):
             k = max(j for j in range(n + 1) if lens[j] <= c)
             e = T.enc_octets(data[:c])
             out.append(("dump.parseall - - %s" % e, ("all", ms, k, None, None, None)))
@@ -196,8 +199,10 @@ def correspond(run, corr):
     cimpl = vf.run_lines(T.HARNESS, creqs)
     sreqs = []
     if run.thorough:
-        for ms, data, lens, _ in fl[:120]:
-            if data is not None and 0 < len(data) <= 2600:
+        for ms, data, lens, _ in fl[40:400]:
+            if len(sreqs) >= 40:
+                break
+            if data is not None and 0 < len(data) <= 1300:
                 sreqs.append("dump.cutscan %s %s %s" % (run.rng.choice(["-", "0", "1", "2"]), run.rng.choice(["-", "1", "2"]), T.enc_octets(data)))
     else:
         for ms, data, lens, _ in fl[:6]:
